@@ -222,6 +222,8 @@ pub struct Report {
     pub env: std::sync::Arc<Env>,
     pub mode: Mode,
     pub workers: usize,
+    /// bound on shrinking steps per failure (checks with expensive cases lower it)
+    pub shrink_iters: u32,
     level: &'static str,
     rule: String,
     assumptions: Vec<String>,
@@ -347,6 +349,7 @@ impl Report {
             }),
             mode,
             workers,
+            shrink_iters: 4000,
             level: "exploration",
             rule: String::new(),
             assumptions: Vec::new(),
@@ -475,6 +478,7 @@ impl Report {
         let workers = self.workers.max(1);
         let per = (cases + workers - 1) / workers;
         let seed = self.seed;
+        let shrink_iters = self.shrink_iters;
         let idh = fnv_str(&[&self.id, name]);
         let results: Mutex<Vec<(SubStats, Option<(Vec<u8>, CaseFail)>)>> = Mutex::new(Vec::new());
         std::thread::scope(|scope| {
@@ -487,7 +491,7 @@ impl Report {
                         let mut config = Config::default();
                         config.cases = per as u32;
                         config.failure_persistence = None;
-                        config.max_shrink_iters = 4000;
+                        config.max_shrink_iters = shrink_iters;
                         config.max_global_rejects = 1 << 30;
                         config.verbose = 0;
                         let mut sd = [0u8; 32];
